@@ -59,6 +59,19 @@ def c19_good():
     return [('big', big), ('small', small), ('no_epilogue', noepi)]
 
 
+def c19_foreign():
+    """Well-formed yacc whose embedded code is not valid in the target language (yaccgo copies code, it does not read it): whatever
+    yaccgo does with these, the rule is the same - exit 0 with a complete file, or a failure with the old file untouched."""
+    decl = '%token <val> NUM\n%type <val> e\n%start e\n'
+    return [
+        ('ternary_in_action', yfile(decl, "e : NUM { $$ = $1 > 1000 ? 1000 : $1 } | e '+' NUM { $$ = $1 + $3 } ;\n")),
+        ('stray_paren_in_action', yfile(decl, "e : NUM { $$ = $1) } ;\n")),
+        ('c_style_epilogue', yfile(decl, "e : NUM { $$ = $1 } ;\n", epi='\nint main(void) { return yyparse(); }\n#include <stdio.h>\n' + EPI)),
+        ('bad_prologue', yfile(decl, "e : NUM { $$ = $1 } ;\n", head=HEAD.replace('import "fmt"', 'import ("fmt"', 1))),
+        ('keyword_in_union', yfile(decl, "e : NUM { $$ = $1 } ;\n", head=HEAD.replace(' val int\n', ' val int\n func for\n', 1))),
+    ]
+
+
 def ts_variant(text):
     return text.replace('package main\nimport "fmt"\n', '"use strict";\n').replace(' val int\n', ' val :number = 0;\n') \
                .replace('func GetToken(input string, valTy *ValType, pos *int) int { return -1 }\nvar _ = fmt.Sprint\n',
@@ -189,6 +202,33 @@ def run_C19(ctx):
                                   % (name, ' '.join(args), len(over or ''), len(fresh), (over or '')[-60:]), dict(case, observed=(over or '')[-300:], expected=fresh[-300:]), interface='I9')
                 if preds.get(name) != 'new':
                     ctx.violation('no-failing-input-found', 'FsModel predicts %r for a successful generation' % preds.get(name), case, interface='I9')
+        foreign = c19_foreign()
+        for (name, text) in foreign:
+            for (tn, args, ext) in TARGETS:
+                t = ts_variant(text) if tn == 'ts' else text
+                src = os.path.join(work, 'in.y')
+                out = os.path.join(work, 'foreign' + ext)
+                open(src, 'w').write(t)
+                open(out, 'w').write(pre)
+                try:
+                    r = subprocess.run([yaccgo] + args + [src, out], capture_output=True, text=True, timeout=20)
+                    rc, err = r.returncode, (r.stderr + r.stdout)[-400:]
+                except subprocess.TimeoutExpired:
+                    rc, err = None, 'TIMEOUT'
+                after = open(out).read() if os.path.exists(out) else None
+                ctx.evaluations += 1
+                ctx.nontrivial.add(('foreign', name, tn))
+                epi = t.split('%%', 2)[2] if t.count('%%') >= 2 else ''
+                case = dict(fault='foreign:' + name, target=tn, grammar_text=t, grammar_sha=vlib.sha(t), exit=rc, stderr=err)
+                if rc == 0:
+                    if after is None or not after.rstrip('\n').endswith(epi.rstrip('\n')):
+                        ctx.violation('counterexample', '`yaccgo %s` on %s (embedded code that is not valid in the target language) exits 0 but the file at the output path does not end with the epilogue' % (' '.join(args), name),
+                                      dict(case, observed=(after or '')[-200:]), interface='I9')
+                elif after != pre:
+                    ctx.violation('counterexample', 'generation of %s (%s) fails with exit %s but the pre-existing output file was %s'
+                                  % (name, ' '.join(args), rc, 'removed' if after is None else 'changed (%d -> %d bytes)' % (len(pre), len(after))),
+                                  dict(case, expected='file untouched', observed=(after or '')[:200]), interface='I9')
+        ctx.extra['foreign_code_cases'] = len(foreign)
         ctx.extra['fault_kinds'] = len(faults)
         ctx.extra['targets'] = [t[0] for t in TARGETS]
         ctx.extra['exhaustive'] = True
@@ -206,6 +246,8 @@ def c14_corpus(ctx):
         gs.append(('ring%d' % i, genrun.fix_tags(gram.ring_grammar(rnd, nullable=bool(i % 2)))))
     for i in range(16 if ctx.quick else 100):
         gs.append(('lay%d' % i, genrun.fix_tags(gram.layered_expr(rnd))))
+    for i in range(5 if ctx.quick else 30):
+        gs.append(('rrp%d' % i, genrun.fix_tags(gram.rr_prec_grammar(rnd))))
     n = 14 if ctx.quick else 120
     for i in range(n):
         kind = i % 4
